@@ -14,13 +14,33 @@ RULE = ("value cases = one Python value from the grammar of the property (None, 
         "make_serializable -> json.dumps -> json.loads -> deserialize and through the dict path; kernel cases = expression "
         "tree (6 kernels, 5 operators, every active_dims form incl. array-likes, parameters as float / int / NumPy scalar / "
         "rank-0 array incl. NaN, inf, subnormal) through to_dict/from_dict/to_json/from_json; refusal cases = objects that "
-        "are not serialised kernels. distinct = distinct canonical value / tree; non-trivial = anything but a bare scalar.")
+        "are not serialised kernels; malformed cases = the state of a valid kernel (all 6 classes, all 5 operators, nested "
+        "pairs) with ONE thing broken at ONE node (root or any nested operand): each of type / metadata / classname / "
+        "module_name / data / left_data / right_data deleted, renamed, or replaced by a value of another type; the class name "
+        "replaced by an unknown name, the abstract base class, a non-class or non-kernel name of the module, a leaf class on "
+        "a pair state and vice versa; the module replaced by one that does not exist / cannot be imported / lacks the class; "
+        "a parameter, scalar operand or active_dims record replaced by a record deserialize cannot read - through from_dict "
+        "and (as text) from_json, outcome must be ValueError. distinct = distinct canonical value / tree / state; "
+        "non-trivial = anything but a bare scalar.")
 PARTIAL = [
     "json text layer (float.__repr__ shortest round trip, NaN/Infinity tokens, string escaping) is the contract JsonCodec; "
     "the theorems hold for every codec satisfying it, the driver runs the identity codec; CPython's json is exercised by the "
     "correspondence only",
     "NaN payload / sign: JSON text keeps only 'NaN', so a NaN comes back as the quiet NaN 0x7ff8000000000000 (normal form "
-    "normF canonNaN); 'bits preserved' is proved for every non-NaN double and NaN-ness for NaNs",
+    "normF canonNaN); 'bits preserved' is proved for every non-NaN double and only NaN-ness for NaNs. This is a literal "
+    "deviation from 'bits preserved' for the NaNs the hardware produces (0/0 = 0xfff8000000000000 on x86, sign bit set): "
+    "it is shown on every run by the witness op 'nansign' and reported as KNOWN-FINDING C19:nan-sign-bit. All other value, "
+    "kernel-parameter and kernel-evaluation comparisons of this check (pyval.equiv with through_json, same_bits with "
+    "relax_nan, norm_param) identify NaNs that differ only in sign / payload when the value went through JSON text; on the "
+    "dict path (to_dict / from_dict, no text) NaN bits are compared exactly",
+    "a kernel state whose 'data' lacks an attribute of its class is accepted (the format does not declare the attributes): "
+    "model outcome 'unmodelled' (kernel-attributes), witness op 'attrmissing', KNOWN-FINDING "
+    "C19:kernel-attribute-missing-accepted; states accepted although they are not what to_dict writes and NOT counted as "
+    "malformed: missing active_dims on a pair (read as None, older files), missing version / date entries of metadata, a "
+    "wrong module name on Add / Mul / Pow (looked up by class name only), classname 'CovariancePair', a non-kernel scalar or "
+    "list as right operand",
+    "module lookup (import_module) is outside the model: states naming a module other than 'mellon.cov' are 'unmodelled' "
+    "there (except for Add / Mul / Pow); their refusal is checked by the oracle on the implementation only",
     "tuples come back as lists (JSON has no tuple): the normal form maps a tuple to the list of its elements, so the theorem "
     "covers tuples up to tuple-vs-list identity; the regression witnesses of the three repaired defects (numpy.bool_, NumPy "
     "scalars inside lists / slices) are run on every check and must pass",
@@ -573,10 +593,94 @@ def case_notkernel(ctx, res, p):
                           detail={"impl": str(io)[:300], "model": str(mo)[:300]})
 
 
+
+# ------------------------------------------------------------------ malformed kernel states (finding A7, repaired)
+
+def case_malformed(ctx, res, p):
+    """A state that carries the marker "type": "mellon.Covariance" but is not what to_dict writes (a required field
+    deleted / renamed / of the wrong type, an unknown, abstract or non-kernel class, a module that does not exist, a
+    stored value that deserialize cannot read).  p["spec"] is the complete (already mutated) state, p["label"] says what
+    was done to which node.  Demanded: ValueError - from from_dict and, as JSON text, from from_json."""
+    from mellon.base_cov import Covariance
+    sp = p["spec"]
+    label = p.get("label", "?")
+    res.count("malformed:" + label.split("@")[0].split("=")[0])
+    res.case(("malformed", repr(canon(sp))), True, {"op": "malformed", "label": label, "spec": str(sp)[:120]})
+    obj = spec_to_py(sp)
+    out = _outcome(lambda: Covariance.from_dict(spec_to_py(sp)))
+    js = json.dumps(obj)
+    outj = _outcome(lambda: Covariance.from_json(js))
+    for how, o in (("from_dict", out), ("from_json", outj)):
+        if o != ("err", "ValueError"):
+            got = "accepted" if o[0] == "ok" else str(o[1]).split(":")[-1]
+            res.oracle_fail(f"malformed serialised kernel ({label}) is not refused with ValueError by {how}: {got}", p,
+                            detail={"label": label, "outcome": str(o)[:200]},
+                            signature="C19:malformed-kernel-dict:" + got)
+            break
+    if ctx["driver"] is not None:
+        mo = cov_reply(ask(ctx, "covfromdict " + spec_tokens(sp)))
+        try:
+            io = out if out[0] == "err" else ("ok", mellon_to_tree(out[1]))
+        except Exception as e:
+            io = ("malformed", type(e).__name__)
+        if mo != io and not unmodelled(mo):
+            res.corr_fail("from_dict on a malformed state: model and implementation differ", p,
+                          detail={"label": label, "impl": str(io)[:300], "model": str(mo)[:300]})
+
+
+def case_attrmissing(ctx, res, p):
+    """A leaf state whose `data` lacks an attribute of its class.  The format does not say which attributes a class
+    needs, so from_dict cannot refuse it: the kernel is built and fails with AttributeError when evaluated.  Reported
+    under its own signature (known finding), not as a malformed-field case."""
+    from mellon.base_cov import Covariance
+    sp = p["spec"]
+    res.count("attrmissing")
+    res.case(("attrmissing", repr(canon(sp))), True, {"op": "attrmissing", "spec": str(sp)[:120]})
+    out = _outcome(lambda: Covariance.from_dict(spec_to_py(sp)))
+    if out == ("err", "ValueError"):
+        return
+    if out[0] != "ok":
+        res.oracle_fail(f"kernel state without the attribute {p.get('attr')} raises {out[1]}", p,
+                        signature="C19:malformed-kernel-dict:" + str(out[1]).split(":")[-1])
+        return
+    X = np.zeros((2, 2))
+    ev = _outcome(lambda: np.asarray(out[1](X, X)))
+    res.oracle_fail(f"a kernel state whose data lacks the attribute {p.get('attr')!r} is accepted by from_dict "
+                    f"(evaluation then gives {ev[1] if ev[0] == 'err' else 'a value'})", p,
+                    detail={"evaluation": str(ev)[:200]}, signature="C19:kernel-attribute-missing-accepted")
+
+
+def case_nansign(ctx, res, p):
+    """Deterministic witness of finding B1: the sign bit of a NaN does not survive JSON text (one token `NaN`); the
+    dict path (no text) must keep it.  Everywhere else in this check NaNs are compared up to sign and payload."""
+    from mellon.util import make_serializable, deserialize
+    b = int(p["bits"])
+    form = p["form"]
+    res.count("nansign:" + form)
+    res.case(("nansign", b, form), True, {"op": "nansign", "bits": hex(b), "form": form})
+    v = spec_to_py({"float": ["F", b], "npfloat": ["NF", b, "float64"], "array": ["A", "np", "f", [2], [b, fbits(1.0)]],
+                    "jax": ["A", "jnp", "f", [2], [b, fbits(1.0)]]}[form])
+    first = lambda o: int(np.asarray(o, dtype=np.float64).reshape(-1)[:1].view(np.uint64)[0])
+    if first(v) != b:
+        res.count("nansign:not-representable")     # the platform did not keep the bits on construction
+        return
+    back = _outcome(lambda: deserialize(json.loads(json.dumps(make_serializable(v)))))
+    backd = _outcome(lambda: deserialize(make_serializable(v)))
+    if backd[0] != "ok" or first(backd[1]) != b:
+        res.oracle_fail("NaN bits change on the dict path (no JSON text involved)", p, signature="C19:nan-bits-dict-path")
+    if back[0] != "ok" or not pv.is_nan_bits(first(back[1])):
+        res.oracle_fail("a NaN does not come back as a NaN from JSON text", p, signature="C19:value-roundtrip")
+    elif first(back[1]) != b:
+        res.oracle_fail(f"NaN bits {b:#018x} come back as {first(back[1]):#018x} from JSON text: sign bit / payload lost",
+                        p, detail={"before": hex(b), "after": hex(first(back[1]))},
+                        signature="C19:nan-sign-bit" if (b ^ first(back[1])) >> 63 else "C19:nan-payload")
+
+
 def run_case(ctx, res, p):
     op = p["op"]
     return {"value": case_value, "deser": case_deser, "cov": case_cov, "adform": case_adform,
-            "notkernel": case_notkernel}[op](ctx, res, p)
+            "notkernel": case_notkernel, "malformed": case_malformed, "attrmissing": case_attrmissing,
+            "nansign": case_nansign}[op](ctx, res, p)
 
 
 # ------------------------------------------------------------------ generators
@@ -823,12 +927,14 @@ def not_kernels():
            (pair_state(leaf_state(typ="x"), ["F", fbits(2.0)]), V),
            (pair_state(pair_state(["S", "k"], ["I", 1], "Mul"), leaf_state(), "Add"), V),
            (pair_state(leaf_state(), leaf_state(), typ="nope"), V),
-           # well-formed states (must load) and states broken in other ways (correspondence only)
+           # well-formed states (must load; correspondence only)
            (leaf_state(), None), (pair_state(leaf_state("Matern32"), ["F", fbits(2.0)], "Mul"), None),
            (pair_state(leaf_state(), leaf_state("ExpQuad"), "Add"), None),
            (pair_state(leaf_state(), ["I", 2], "Pow"), None),
-           (leaf_state("NoSuchKernel"), None),
-           (["D", [["type", ["S", "mellon.Covariance"]]]], None),
+           # carry the marker but are malformed (finding A7, repaired): refused with ValueError as well
+           (leaf_state("NoSuchKernel"), V),
+           (["D", [["type", ["S", "mellon.Covariance"]]]], V),
+           (leaf_state("Covariance"), V),
            ]
     return out
 
@@ -851,6 +957,103 @@ def legacy_records():
         (rec(L([F(1.0), F(2.0)]), [["shape", L([["I", 2], ["I", 1]])]]), ["A", "jnp", "f", [2, 1], [fbits(1.0), fbits(2.0)]]),
     ]
     return out
+
+
+
+# ------------------------------------------------------------------ malformed-state generator
+
+MARK = "mellon.Covariance"
+BAD_RECORDS = [("no-type", {}), ("no-type-data", {"data": 1.0}), ("array-no-data", {"type": "jax.numpy"}),
+               ("array-bad-shape", {"type": "jax.numpy", "data": [1.0, 2.0], "dtype": "float64", "shape": [3]}),
+               ("slice-4", {"type": "slice", "data": [1, 2, 3, 4]}), ("set-unhashable", {"type": "set", "data": [[1]]}),
+               ("dict-data-int", {"type": "dict", "data": 3}), ("slice-no-data", {"type": "slice"})]
+BAD_CLASSES = ["NoSuchKernel", "matern52", "", "Matern52 ", "Covariance", "json", "logger", "ABC", "deserialize",
+               "import_module", "_state_field", "__name__", "Predictor", "MELLON_NAME"]
+BAD_MODULES = ["no.such.module", "mellon.nosuch", "", "mellon.cov ", ".cov", "os", "json", "mellon.util", "mellon.base_cov",
+               "mellon.cov.Matern52"]
+
+
+def base_state(tree):
+    """to_dict of a kernel tree as JSON data, with the time stamps replaced (stable case keys)."""
+    return strip_dates(json.loads(tree_to_mellon(tree).to_json()))
+
+
+def kernel_nodes(d, path=()):
+    yield path, d
+    for key in ("left_data", "right_data"):
+        v = d.get(key)
+        if isinstance(v, dict) and v.get("type") == MARK:
+            yield from kernel_nodes(v, path + (key,))
+
+
+def node_mutations(node):
+    """(label, function mutating the node in place) for one kernel-state node; every result must be refused."""
+    pair = "left_data" in node
+    out = []
+
+    def delete(key, sub=None):
+        def f(n):
+            del (n[sub] if sub else n)[key]
+        return ("delete:" + key, f)
+
+    def rename(key, new, sub=None):
+        def f(n):
+            d = n[sub] if sub else n
+            d[new] = d.pop(key)
+        return (f"rename:{key}->{new}", f)
+
+    def setv(key, val, tag, sub=None, kind="retype"):
+        def f(n):
+            (n[sub] if sub else n)[key] = json.loads(json.dumps(val))
+        return (f"{kind}:{key}={tag}", f)
+
+    out += [delete("type"), delete("metadata"), delete("classname", "metadata"), delete("module_name", "metadata"),
+            rename("type", "Type"), rename("metadata", "meta_data"), rename("classname", "class_name", "metadata"),
+            rename("module_name", "module", "metadata")]
+    out += [setv("type", v, t) for t, v in (("None", None), ("int", 1), ("lower", "mellon.covariance"), ("list", [MARK]),
+                                            ("predictor", "mellon.Predictor"))]
+    out += [setv("metadata", v, t) for t, v in (("None", None), ("list", []), ("str", "x"), ("int", 3))]
+    out += [setv("classname", v, t, "metadata") for t, v in (("None", None), ("int", 3), ("list", ["Matern52"]), ("dict", {}))]
+    out += [setv("module_name", v, t, "metadata") for t, v in (("None", None), ("int", 3), ("list", []))]
+    out += [setv("classname", c, repr(c), "metadata", kind="class") for c in BAD_CLASSES]
+    if pair:
+        def swap(n):
+            n["metadata"]["classname"], n["metadata"]["module_name"] = "Matern52", "mellon.cov"
+        out += [("class:pair-as-leaf", swap), delete("left_data"), delete("right_data"),
+                rename("left_data", "left"), rename("right_data", "right"), rename("left_data", "data")]
+        out += [setv("left_data", v, t) for t, v in (("None", None), ("int", 3), ("list", []), ("str", "k"), ("dict", {}),
+                                                     ("marker-only", {"type": MARK}), ("float", 2.0))]
+        out += [setv("right_data", v, t) for t, v in (("marker-only", {"type": MARK}),)]
+        out += [setv("right_data", v, t, kind="value") for t, v in BAD_RECORDS]
+        out += [setv("active_dims", v, t, kind="value") for t, v in BAD_RECORDS]
+    else:
+        out += [setv("classname", "Add", "'Add'", "metadata", kind="class"), delete("data"), rename("data", "Data"),
+                rename("data", "left_data")]
+        out += [setv("data", v, t) for t, v in (("None", None), ("list", []), ("str", "x"), ("int", 3))]
+        out += [setv("module_name", mo, repr(mo), "metadata", kind="module") for mo in BAD_MODULES]
+        out += [setv("ls", v, t, "data", kind="value") for t, v in BAD_RECORDS]
+        out += [setv("active_dims", v, t, "data", kind="value") for t, v in BAD_RECORDS[:3]]
+    return out
+
+
+def malformed_cases(tree, rng=None, per_node=None):
+    """Payloads: every (node, mutation) of the state of `tree`, or `per_node` sampled mutations per node."""
+    base = base_state(tree)
+    for path, node in list(kernel_nodes(base)):
+        muts = node_mutations(node)
+        if per_node is not None and rng is not None and per_node < len(muts):
+            muts = [muts[i] for i in sorted(rng.permutation(len(muts))[:per_node])]
+        for label, f in muts:
+            d = json.loads(json.dumps(base))
+            n = d
+            for key in path:
+                n = n[key]
+            f(n)
+            yield {"op": "malformed", "spec": py_to_spec(d), "label": label + "@" + ("/".join(path) or "root"),
+                   "expect": "ValueError"}
+
+
+A7_TREE = ("ADD", ("MULC", ("M52", 1.2, ("AN",)), 2.0, ("AN",)), ("EQ", 0.5, ("AN",)), ("AN",))
 
 
 def run(ctx, res):
@@ -908,6 +1111,31 @@ def run(ctx, res):
         run_case(ctx, res, {"op": "deser", "spec": sp})
     for sp, exp in not_kernels():
         run_case(ctx, res, {"op": "notkernel", "spec": sp, "expect": exp})
+    # --- malformed kernel states (regression of finding A7; every case fails on a tree without the fix with
+    # C19:malformed-kernel-dict:KeyError / AttributeError / TypeError): the reproducer's expression in full, then every
+    # class and operator (quick: sampled mutations per node)
+    for pl in malformed_cases(A7_TREE):
+        run_case(ctx, res, pl)
+    others = [(k, 0.7 + 0.1 * i, ("AL", [0, 1])) for i, k in enumerate(["M32", "M52", "EQ", "EX", "LIN"])]
+    others.append(("RQ", 1.5, 0.8, ("AI", 1)))
+    leaf = lambda i: others[i % 6]
+    others += [("ADD", leaf(0), leaf(5), ("AN",)), ("MUL", leaf(1), leaf(2), ("AS", None, -1, None)),
+               ("ADDC", leaf(3), 0.25, ("AN",)), ("MULC", leaf(4), 3.0, ("AI", 0)), ("POW", leaf(2), 2.0, ("AN",)),
+               ("MUL", ("ADD", leaf(0), ("POW", leaf(1), 1.5, ("AN",)), ("AN",)), ("MULC", leaf(5), 2.0, ("AN",)), ("AN",))]
+    for t in others:
+        for pl in malformed_cases(t, rng, per_node=6 if quick else None):
+            run_case(ctx, res, pl)
+    # --- witness: a state whose data lacks an attribute is accepted (known finding, own signature)
+    d = base_state(("EQ", 0.5, ("AN",)))
+    del d["data"]["ls"]
+    run_case(ctx, res, {"op": "attrmissing", "spec": py_to_spec(d), "attr": "ls"})
+    # --- witness of finding B1: the sign bit of NaN does not survive JSON text
+    for form in ("float", "npfloat", "array", "jax"):
+        run_case(ctx, res, {"op": "nansign", "bits": 0xFFF8000000000000, "form": form})
+    run_case(ctx, res, {"op": "nansign", "bits": 0x7FF8000000000000, "form": "float"})     # survives: must pass
+    with np.errstate(all="ignore"):
+        hw = fbits(float(np.float64(0.0) / np.float64(0.0)))
+    res.count("hardware-nan-sign=%d" % (hw >> 63))
     # --- kernels: every leaf x every canonical active_dims form; every way of writing active_dims
     forms = ["AN", "AI", "AIneg", "AL", "AM", "AS"]
     for kind in LEAVES:
@@ -958,11 +1186,17 @@ CLAIM = {
             "every JSON codec meeting the text contract, and deserialize(make_serializable v) on the dict path; for every "
             "kernel expression tree (induction over Cov), every active-dims form and every parameter value, from_dict(to_dict c) "
             "= c and from_json(to_json c) = c up to that normal form, hence equal k / k_grad; anything that is not a kernel "
-            "state is refused with ValueError; the string 'None' is the only string that does not survive. Tied to /repo by "
+            "state is refused with ValueError, and so is (malformed_kernel_refused, never_internal_error: for EVERY value of the "
+            "model, at any nesting depth) a state with the marker in which a required field is missing or ill-typed, the class "
+            "is not a concrete kernel class or a stored value is unreadable - from_dict ends in a kernel, in ValueError or in "
+            "the model's 'unmodelled' mark, never in KeyError / AttributeError / TypeError; the string 'None' is the only "
+            "string that does not survive. Tied to /repo by "
             "exact comparison (dtype, shape, bits, structure) of the real functions with the model driver on generated values "
             "and trees, plus an independent bitwise oracle on values and on kernel evaluations.",
-    "note": "json text layer is a contract (JsonCodec); NaN payloads are not kept by JSON text; tuples come back as lists "
-            "(normal form). Correspondence is sampled differential testing.",
+    "note": "json text layer is a contract (JsonCodec); the sign and payload of a NaN are NOT kept by JSON text (known finding "
+            "C19:nan-sign-bit, witness on every run; NaNs are otherwise compared up to sign / payload); tuples come back as "
+            "lists (normal form); a kernel state lacking a class attribute is accepted (known finding "
+            "C19:kernel-attribute-missing-accepted). Correspondence is sampled differential testing.",
     "technique": "Lean 4 proof (mutual structural induction over value and kernel syntax) + exact differential correspondence "
                  "+ bitwise round-trip oracle",
 }
